@@ -877,11 +877,15 @@ class Verdict:
         self.name, self.where, self.status, self.model, self.secs, self.kind, self.pathid = name, where, status, model, secs, kind, pathid
 
 
-def discharge(ex, results, extra=None, timeout_ms=60000, dedupe=True):
+def discharge(ex, results, extra=None, timeout_ms=60000, dedupe=True, splits=None):
     """check every recorded obligation (and `extra(result)` -> [(name, cond)] evaluated under the full path condition).
-    returns list of Verdict; status in {'proved','violated','unknown'}"""
+    `splits`: optional list of conditions used as a case split (the remainder case is added, so the split is exhaustive by construction):
+    an obligation is proved iff it is unsat in every case.  returns list of Verdict; status in {'proved','violated','unknown'}"""
     out = []
     s = z3.Solver(); s.set('timeout', timeout_ms)
+    cases = [None]
+    if splits:
+        cases = list(splits) + [Not(Or(*splits))]
     for pid, r in enumerate(results):
         items = [(o.name, o.cond, r.path.pc[:o.pclen], o.where, o.kind) for o in r.path.obl]
         if extra is not None and r.status == 'return':
@@ -889,10 +893,16 @@ def discharge(ex, results, extra=None, timeout_ms=60000, dedupe=True):
                 items.append((name, cond, r.path.pc, 'post', 'post'))
         for name, cond, pc, where, kind in items:
             t0 = time.time()
-            s.push(); s.add(*pc); s.add(Not(cond))
-            res = s.check(); ex.queries += 1
-            mdl = s.model() if res == sat else None
-            s.pop()
+            res = unsat; mdl = None
+            for c in cases:
+                # a fresh, non-incremental solver per query: z3 then uses its full tactic pipeline (much stronger on QF_BV/FP than push/pop mode)
+                s = z3.Solver(); s.set('timeout', timeout_ms)
+                s.add(*pc); s.add(Not(cond))
+                if c is not None: s.add(c)
+                rc = s.check(); ex.queries += 1
+                if rc == sat:
+                    res = sat; mdl = s.model(); break
+                if rc != unsat: res = rc
             dt = time.time() - t0; ex.solver_s += dt
             out.append(Verdict(name, where, 'proved' if res == unsat else ('violated' if res == sat else 'unknown'), mdl, dt, kind, pid))
     return out
